@@ -363,11 +363,13 @@ ABS = ("abs", "np.abs", "numpy.abs", "np.fabs", "numpy.fabs",
 EXTREMA = ("np.nanmax", "np.nanmin", "np.max", "np.min", "np.amax",
            "np.amin", "max", "min", "numpy.nanmax", "numpy.nanmin",
            "np.nanargmax", "np.nanargmin", "np.argmax", "np.argmin",
-           "np.sort", "sorted", "np.argsort", "np.median", "np.nanmedian",
-           "np.percentile", "np.nanpercentile")
+           "np.sort", "sorted", "np.argsort", "np.percentile",
+           "np.nanpercentile")
+# symmetric statistics: spread is even, the centre follows the data
+EVEN_STATS = ("np.std", "np.nanstd", "np.var", "np.nanvar", "numpy.std")
 SAME = ("np.where", "np.nan_to_num", "np.asarray", "np.array", "np.squeeze",
         "np.ravel", "float", "np.float64", "np.nansum", "np.sum", "np.mean",
-        "np.nanmean", "np.copy")
+        "np.nanmean", "np.copy", "np.median", "np.nanmedian")
 
 
 def parity(e, env, fnode=None, depth=0):
@@ -428,6 +430,8 @@ def parity(e, env, fnode=None, depth=0):
             return "N" if p in ("O", "N") else "E"
         ps = [parity(a, env, fnode, depth + 1) for a in args]
         if fn in ABS:
+            return "N" if "N" in ps else "E"
+        if fn in EVEN_STATS:
             return "N" if "N" in ps else "E"
         if fn in EXTREMA:
             return "N" if ("O" in ps or "N" in ps) else "E"
@@ -551,8 +555,21 @@ def r5_fields(ctx, prog):
     # the background map negates with the image, the noise map does not
     env["bkg"] = "O"
     env["rms"] = "E"
+    # the fit residual (data - model) follows the data
+    env["result.residual"] = "O"
     seeded = set(env)
-    env["residual"] = "N"
+    # statistics of the residual computed before the component loop
+    for st in fi.node.body:
+        if isinstance(st, ast.Assign) and st is not loop:
+            if isinstance(st.value, ast.Tuple) and len(st.targets) == 1 and \
+                    isinstance(st.targets[0], ast.Name):
+                for k_, el in enumerate(st.value.elts):
+                    env["%s[%d]" % (st.targets[0].id, k_)] = parity(
+                        el, env, None)
+            elif len(st.targets) == 1 and isinstance(st.targets[0],
+                                                     ast.Name) and \
+                    "residual" in norm(st.value):
+                env[st.targets[0].id] = parity(st.value, env, None)
     n = 0
     checked = {}
 
@@ -590,9 +607,6 @@ def r5_fields(ctx, prog):
                                  ast.Try)):
                 for fld in ("body", "orelse", "finalbody"):
                     visit(getattr(st, fld, []) or [])
-    # residual statistics: tuple (mean, std) of the residual image
-    env["residual[0]"] = "O"
-    env["residual[1]"] = "E"
     visit(loop.body)
     for attr, want in sorted(FIELD_PARITY.items()):
         if attr not in checked:
